@@ -244,7 +244,7 @@ Theorem C11_ipv6_unsupported_example :
   let st := Build_kstate [ex_tcp] None [] (Some [ex_udp6; ex_v6_listen0]) [] (ex_procs false) (fun _ => None) in
   wf_state st = true /\ files_text_safe true st = true
   /\ exists adds, net_connections_adds current true o (k_files true st) (to_procs (k_procs st)) (bs "inet") = Val adds
-                  /\ map r_family adds = [2; 10] /\ map r_laddr adds = [AInet [127; 0; 0; 1] 22; ANone]
+                  /\ map r_family adds = [TEnum 2; TEnum 10] /\ map r_laddr adds = [AInet [127; 0; 0; 1] 22; ANone]
                   /\ length (spec_sys (bs "inet") st) = 3%nat.
 Proof. exact ipv6_unsupported_example. Qed.
 Print Assumptions C11_ipv6_unsupported_example.
@@ -256,6 +256,37 @@ Theorem C11_unix_items_example :
   /\ length (socks_of items) = 1%nat.
 Proof. exact unix_items_example. Qed.
 Print Assumptions C11_unix_items_example.
+
+(* ---- the CLASSES of the field values (family and type are tagged: TEnum = a member of socket.AddressFamily /
+   socket.SocketKind, TInt = a plain int; row_ok compares the tags, so every row theorem above and below says: family IS
+   the AddressFamily member, type IS the SocketKind member -- SOCK_SEQPACKET, not the bare 5 -- and a number without a
+   member stays a plain int) *)
+(* socktype_to_enum over the dumped members of socket.SocketKind = the documented members, for every number *)
+Theorem C11_sock_kind_agrees : forall n, to_enum gen_socket_kinds n = spec_sock_kind n.
+Proof. exact sock_kind_agrees. Qed.
+Print Assumptions C11_sock_kind_agrees.
+
+(* the family / type objects in tmap are enum members; AF_UNIX/AF_INET/AF_INET6 are AddressFamily members; every status the
+   code can return is one of the psutil CONN_* string constants *)
+Theorem C11_field_classes :
+  gen_tmap_enums = true
+  /\ forallb (fun f => existsb (Z.eqb f) gen_address_families) [1; 2; 10] = true
+  /\ forallb (fun s => existsb (beqb s) gen_conn_constants) (CONN_NONE :: map snd gen_tcp_statuses) = true.
+Proof. exact field_classes. Qed.
+Print Assumptions C11_field_classes.
+
+Theorem C11_unix_type_classes :
+  let st := Build_kstate [] None [] None
+              [ex_unix (bs "600") (bs "/s") USeqpacket; ex_unix (bs "601") (bs "/r") (UOther 3);
+               ex_unix (bs "602") (bs "/u") (UOther 7); ex_unix (bs "603") (bs "/z") (UOther 0)]
+              (ex_procs false) (fun _ => None) in
+  wf_state st = true /\ files_text_safe true st = true
+  /\ exists adds, net_connections_adds current true ipv6_ok (k_files true st) (to_procs (k_procs st)) (bs "unix") = Val adds
+                  /\ map r_type adds = [TEnum 5; TEnum 3; TInt 7; TInt 0]
+                  /\ map r_family adds = [TEnum 1; TEnum 1; TEnum 1; TEnum 1]
+                  /\ map e_type (spec_sys (bs "unix") st) = [TEnum 5; TEnum 3; TInt 7; TInt 0].
+Proof. exact unix_type_classes. Qed.
+Print Assumptions C11_unix_type_classes.
 
 (* ---- degenerate table files (procfs emulations / sandboxes): a table file that exists but is completely empty
    (0 bytes, no header), holds the header without its newline, or a lone newline is part of the state ([k_deg], only
